@@ -40,3 +40,14 @@ Theorem C20_path_resolution_order : forall fault hash b segs,
   snd (walk_path fault hash b segs) = walk_spec fault hash b segs.
 Proof. exact walk_path_requests. Qed.
 Print Assumptions C20_path_resolution_order.
+
+(* KNOWN FINDING (known_findings.json, C20-unsized-measured-first): over file nodes whose children carry no declared size
+   (File/UnsizedLoads.v) a full read does not first-request the blocks in depth-first link order when an earlier child
+   declares its FileSize and a later one has to be opened with its leaves to be measured *)
+From UV Require Import File.Spec File.Unsized File.UnsizedLoads.
+Theorem C20_unsized_order_refuted :
+  exists b, uwell b = true /\
+    let '(_, loads, st) := drain_all (ustreamL nofault b 0) [] [] in
+    st = StEOF /\ first_requests [] loads <> tl (preorder b).
+Proof. exact unsized_order_refuted. Qed.
+Print Assumptions C20_unsized_order_refuted.
